@@ -18,18 +18,16 @@ Definition tok_k (k : ikind) (z : Z) : list Z :=
   match k with KI => print_d z | KH => print_d z ++ [104] | KC => print_char z end.
 Definition good_k (k : ikind) (z : Z) : Prop :=
   match k with KI => - 2 ^ 31 <= z < 2 ^ 31 | KH => - 2 ^ 63 <= z < 2 ^ 63 | KC => 0 <= z <= 255 end.
-(* half the range: differences and spans of such values do not wrap *)
+(* a value whose token the recognisers read back and which contains no '.' *)
 Definition small_k (k : ikind) (z : Z) : Prop :=
-  match k with KH => - 2 ^ 62 < z < 2 ^ 62 | KI => - 2 ^ 30 < z < 2 ^ 30 | KC => 0 <= z <= 255 /\ z <> 46 end.
+  good_k k z /\ match k with KC => z <> 46 | _ => True end.
 
 Lemma good_k_val k z : good_k k z -> good_val (mk k z).
 Proof. destruct k; cbn; unfold good_char; tauto. Qed.
 Lemma small_good k z : small_k k z -> good_k k z.
-Proof. destruct k; cbn; lia. Qed.
+Proof. now intros [H _]. Qed.
 Lemma small_inr k z : small_k k z -> inr k z.
-Proof. destruct k; cbn; lia. Qed.
-Lemma small_diff k a b : small_k k a -> small_k k b -> inr k (a - b).
-Proof. destruct k; cbn; lia. Qed.
+Proof. intros [H _]. destruct k; cbn in *; lia. Qed.
 
 Section Kinds.
 Variables dec2f dec2d : list Z -> Z.
@@ -126,7 +124,8 @@ Definition tail_text (k : ikind) (b last : Z) (sp : list Z) : list Z :=
 
 (* the run b, b+d, ..., last of m values without wrap-around *)
 Definition run_ok (k : ikind) (b d m last : Z) : Prop :=
-  small_k k b /\ small_k k last /\ last = b + (m - 1) * d /\ 1 <= m < 2 ^ 31 /\ d <> 0 /\ inr k d.
+  small_k k b /\ small_k k last /\ last = b + (m - 1) * d /\ 1 <= m < 2 ^ 31 /\ d <> 0 /\ inr k d /\
+  inr k (last - b).
 
 Section Tail.
 Variables dec2f dec2d : list Z -> Z.
@@ -174,7 +173,7 @@ Lemma scan_tail k b d m last sp rest f before nb u l :
   scan_arg_val dec2f dec2d (S (S f)) (tail_text k b last sp ++ rest) before nb true
   = Ok ([VRep m 1; mk k d; mk k b], rest).
 Proof.
-  intros (Hsb & Hsl & Hlast & Hm & Hd0 & Hdr) Hsp Hr Hu Hctx.
+  intros (Hsb & Hsl & Hlast & Hm & Hd0 & Hdr & Hw) Hsp Hr Hu Hctx.
   pose proof (small_good _ _ Hsb) as Hgb. pose proof (small_good _ _ Hsl) as Hgl.
   destruct (after_lhs k last sp rest Hgl Hsp) as (HR0 & Hell & Hs1 & H93).
   unfold tail_text. rewrite <- !app_assoc.
@@ -185,10 +184,10 @@ Proof.
   subst f1. rewrite Hrd, Hu. cbn [andb].
   destruct Hctx as [(-> & Hd & Hm2)|(-> & a & -> & Hda)].
   - rewrite (dfa_unity k b last d m l); try assumption; try lia;
-      try (now apply small_inr); try (now apply small_diff).
+      try (now apply small_inr).
     replace (m =? -1) with false by lia. reflexivity.
   - rewrite (dfa_delta k a b last d m); try assumption; try lia;
-      try (now apply small_inr); try (now apply small_diff).
+      try (now apply small_inr).
     replace (m =? -1) with false by lia. reflexivity.
 Qed.
 End Tail.
@@ -222,7 +221,7 @@ Lemma skip_tail k b d m last sp rest f llhs ib u la :
    u = false /\ exists a, la = Some (mk k a) /\ d = b - a) ->
   skip_next dec2f dec2d (S (S f)) (tail_text k b last sp ++ rest) llhs true ib = Ok (rest, 3, 45).
 Proof.
-  intros (Hsb & Hsl & Hlast & Hm & Hd0 & Hdr) Hsp Hr Hchk Hctx.
+  intros (Hsb & Hsl & Hlast & Hm & Hd0 & Hdr & Hw) Hsp Hr Hchk Hctx.
   pose proof (small_good _ _ Hsb) as Hgb. pose proof (small_good _ _ Hsl) as Hgl.
   destruct (after_lhs k last sp rest Hgl Hsp) as (HR0 & Hell & Hs1 & H93).
   assert (Hrm : is_range_multiplier (tok_k k b ++ ell4 ++ sp ++ tok_k k last ++ rest) = false)
@@ -243,10 +242,10 @@ Proof.
   cbn [negb andb]. rewrite Hchk. cbn [orb andb].
   destruct Hctx as [(-> & Hd & Hm2)|(-> & a & -> & Hda)].
   - rewrite (dfa_unity k b last d m (mk k b)); try assumption; try lia;
-      try (now apply small_inr); try (now apply small_diff).
+      try (now apply small_inr).
     replace (m =? -1) with false by lia. reflexivity.
   - rewrite (dfa_delta k a b last d m); try assumption; try lia;
-      try (now apply small_inr); try (now apply small_diff).
+      try (now apply small_inr).
     replace (m =? -1) with false by lia. reflexivity.
 Qed.
 End TailChk.
@@ -502,10 +501,10 @@ Proof.
   - pose proof (print_d_chars z) as Hc. split.
     + apply Forall_app. split; [eapply Forall_impl; [|exact Hc]; cbn; lia|repeat constructor; lia].
     + exists (print_d z), 104. split; [reflexivity|]. split; [lia|reflexivity].
-  - unfold print_char. destruct (as_escaped_char z true) as [e|] eqn:E.
-    + destruct (esc_chr_ne _ _ E). split; [repeat constructor; lia|].
+  - destruct Hs as [_ Hz]. unfold print_char. destruct (as_escaped_char z true) as [e|] eqn:E.
+    + destruct (esc_chr_ne _ _ E). split; [repeat (constructor; [lia|]); constructor|].
       exists [39; 92; e], 39. split; [reflexivity|]. split; [lia|reflexivity].
-    + split; [repeat constructor; lia|]. exists [39; z], 39. split; [reflexivity|]. split; [lia|reflexivity].
+    + split; [repeat (constructor; [lia|]); constructor|]. exists [39; z], 39. split; [reflexivity|]. split; [lia|reflexivity].
 Qed.
 
 Lemma lastns_end i c sp c0 :
@@ -887,44 +886,17 @@ Definition goodc (v : av) : Prop :=
   | VT | VF | VN | VInf => True
   | VS s => nonul s /\ nodot s
   | VSym s => nonul s /\ sym_plain s = false /\ nodot s
+  | VM a b c d => good_midi a b c d
+  | VR v => good_rgba v
   | _ => False
   end.
 
 Lemma goodc_good v : goodc v -> good_val v.
-Proof. destruct v; cbn; unfold good_char; try tauto; lia. Qed.
+Proof. destruct v; cbn; unfold small_k, good_k, good_char; try tauto; lia. Qed.
 Lemma goodc_facts v : goodc v -> scalar v /\ inrv v /\ exact v.
-Proof. destruct v; cbn; try tauto; lia. Qed.
+Proof. destruct v; cbn; unfold small_k, good_k; try tauto; lia. Qed.
 Lemma goodc_mk k z : goodc (mk k z) -> small_k k z.
 Proof. destruct k; cbn; tauto. Qed.
-
-Definition Mk (k : ikind) : Z := match k with KH => 2 ^ 64 | _ => 2 ^ 32 end.
-Lemma wr_mod k z : exists q, wr k z = z + q * Mk k.
-Proof.
-  destruct k; cbn [wr Mk]; unfold wrap32, wrap64.
-  - exists (- ((z + 2 ^ 31) / 2 ^ 32)). pose proof (Z.div_mod (z + 2 ^ 31) (2 ^ 32) ltac:(lia)). lia.
-  - exists (- ((z + 2 ^ 63) / 2 ^ 64)). pose proof (Z.div_mod (z + 2 ^ 63) (2 ^ 64) ltac:(lia)). lia.
-  - exists (- ((z + 2 ^ 31) / 2 ^ 32)). pose proof (Z.div_mod (z + 2 ^ 31) (2 ^ 32) ltac:(lia)). lia.
-Qed.
-
-Lemma small_bound k z : small_k k z -> - Mk k < 4 * z < Mk k.
-Proof. intros H. destruct k; cbn [small_k Mk] in *; lia. Qed.
-Lemma inr_bound k z : inr k z -> - Mk k <= 2 * z < Mk k.
-Proof. intros H. destruct k; cbn [inr Mk] in *; lia. Qed.
-
-(* a chain of small values with an in-range step does not wrap *)
-Lemma small_chain k x d n :
-  small_k k x -> inr k d -> (forall j, (j < n)%nat -> small_k k (wr k (x + Z.of_nat j * d))) ->
-  forall j, (j < n)%nat -> wr k (x + Z.of_nat j * d) = x + Z.of_nat j * d.
-Proof.
-  intros Hx Hd Hs j. induction j as [|j IH]; intros Hj.
-  - replace (x + Z.of_nat 0 * d) with x by lia. apply wr_id. now apply small_inr.
-  - pose proof (Hs (S j) Hj) as H1. pose proof (Hs j ltac:(lia)) as H0. rewrite IH in H0 by lia.
-    destruct (wr_mod k (x + Z.of_nat (S j) * d)) as [q Hq]. rewrite Hq in *.
-    apply small_bound in H0. apply small_bound in H1. apply inr_bound in Hd.
-    assert (0 < Mk k) by (destruct k; cbn; lia).
-    replace (x + Z.of_nat (S j) * d) with (x + Z.of_nat j * d + d) in * by lia.
-    assert (q = 0) by nia. subst q. lia.
-Qed.
 
 Lemma pav_mk o k z cols f :
   print_arg_val_f (S f) o [mk k z] cols None = Some (tok_k k z, len (tok_k k z), cols + len (tok_k k z), false).
@@ -943,15 +915,17 @@ Lemma pavf_rep o n h r cols prev f :
   print_arg_val_f (S f) o (VRep n h :: r) cols prev = print_range (print_arg_val_f f) o (VRep n h :: r) cols prev.
 Proof. reflexivity. Qed.
 
-Lemma print_range_const o n a0 y cols prev t w c' :
+Lemma print_range_const o n a0 y0 cols prev t w c' :
   compress o = true -> 0 < n -> scalar a0 ->
   print_scalar o a0 (cols + len (print_d n ++ [120])) = Some (t, w, c') ->
-  print_arg_val o [VRep n 0; a0; VSpc y] cols prev
+  print_arg_val o [VRep n 0; a0; VSpc y0] cols prev
   = Some ((print_d n ++ [120]) ++ t, len (print_d n ++ [120]) + w, c', false).
 Proof.
   intros Hon Hn Hs Hp. unfold print_arg_val. rewrite pavf_rep. unfold print_range. cbv beta iota.
   rewrite Hon. replace (n =? 0) with false by lia. cbn [negb orb Z.eqb].
-  rewrite (pav_scalar o a0 _ _ None 4 Hs), Hp. reflexivity.
+  assert (Hm : forall (A : Type) (x y : A), match a0 :: [VSpc y0] with VArr _ _ :: _ => x | _ => y end = y)
+    by (intros; destruct a0; cbn in Hs; try contradiction; reflexivity).
+  rewrite Hm. rewrite (pav_scalar o a0 _ _ None 4 Hs), Hp. reflexivity.
 Qed.
 
 Definition notconf (prev : option av) (k : ikind) (x : Z) : Prop :=
@@ -1036,6 +1010,16 @@ Proof.
     repeat (apply Forall_app; split); try assumption; try (repeat constructor; lia).
 Qed.
 
+Lemma hexdig_ne46 x : hexdig (x mod 16) <> 46.
+Proof. unfold hexdig. pose proof (Z.mod_pos_bound x 16 ltac:(lia)). destruct (x mod 16 <? 10); lia. Qed.
+
+Lemma hex2_nodot b : nodot (hex2 b).
+Proof.
+  unfold hex2, hexdig. repeat constructor.
+  - destruct (b / 16 mod 16 <? 10) eqn:E; pose proof (Z.mod_pos_bound (b / 16) 16 ltac:(lia)); lia.
+  - destruct (b mod 16 <? 10) eqn:E; pose proof (Z.mod_pos_bound b 16 ltac:(lia)); lia.
+Qed.
+
 Section GoodcTok.
 Variables dec2f dec2d : list Z -> Z.
 
@@ -1061,6 +1045,8 @@ Proof.
     pose proof (print_chars_nodot (linelength o) s (cols + 1) Hnd) as Hb.
     destruct (print_chars false (linelength o) s (cols + 1)) as [body c1]. inversion Hp; subst. cbn [fst] in Hb.
     constructor; [lia|]. apply Forall_app. split; [assumption|repeat constructor; lia].
+  - inversion Hp; subst. repeat constructor; try lia; apply hexdig_ne46.
+  - inversion Hp; subst. repeat constructor; try lia; apply hexdig_ne46.
 Qed.
 End GoodcTok.
 
@@ -1100,7 +1086,9 @@ Proof.
   - rewrite <- Ed in *. now apply print_range_const.
   - unfold print_arg_val. rewrite pavf_rep. unfold print_range. cbv beta iota.
     rewrite Hon. replace (n =? 0) with false by lia. cbn [negb orb Z.eqb].
-    rewrite (pav_scalar o a0 _ _ None 4 Hs). rewrite Ed, E. reflexivity.
+    assert (Hm : forall (A : Type) (x z : A), match a0 :: [VSpc y] with VArr _ _ :: _ => x | _ => z end = z)
+      by (intros; destruct a0; cbn in Hs; try contradiction; reflexivity).
+    rewrite Hm. rewrite (pav_scalar o a0 _ _ None 4 Hs). rewrite Ed, E. reflexivity.
 Qed.
 
 Lemma print_iter a0 rest size prev t tmp cols cols1 bb cv :
@@ -1129,7 +1117,7 @@ Proof.
     split; [reflexivity|]. split; [split; [reflexivity|split; assumption]|reflexivity].
   - destruct (range_expand_shape o (a0 :: rest) size c kk Hsc Hin Hex0 Hlen Hcv) as (n & -> & Hn5 & Hexp & Hshape).
     destruct Hn5 as [Hn5 Hnl].
-    destruct Hshape as [[[y Ec] Hrep]|(k & d & x & y & Ec & Hdr & Hhd & Hd0)]; subst c; cbn [hd] in *.
+    destruct Hshape as [[[y Ec] Hrep]|(k & d & x & y & Ec & Hdr & Hhd & Hd0 & Hexj)]; subst c; cbn [hd] in *.
     + (* N x value *)
       rewrite (print_range_const_eq (Z.of_nat n) a0 y cols prev ltac:(lia) Hs0) in Hp.
       destruct (print_scalar o a0 (cols + len (dec_nat (Z.of_nat n) ++ [120]))) as [[[t' w'] c']|] eqn:Eps;
@@ -1146,12 +1134,11 @@ Proof.
     + (* a run with a step *)
       subst a0. rewrite expand_delta in Hexp by lia. rewrite Nat2Z.id in Hexp. inversion Hexp as [Hm]. clear Hexp.
       assert (Hsx : small_k k x) by (apply goodc_mk; exact Hg0).
+      assert (Hex : forall j, (j < n)%nat -> wr k (x + Z.of_nat j * d) = x + Z.of_nat j * d)
+        by (intros j Hj; apply wr_id; apply (Hexj j Hj)).
       assert (Hsm : forall j, (j < n)%nat -> small_k k (wr k (x + Z.of_nat j * d))).
-      { intros j Hj. apply goodc_mk. eapply Forall_forall; [exact Hg|].
-        eapply nth_error_In. rewrite (nth_firstn (mk k x :: rest) _ n j (eq_sym Hm) Hj).
-        rewrite nth_error_map, nth_error_nth' with (d := 0%nat) by (rewrite seq_length; lia).
-        rewrite seq_nth by lia. reflexivity. }
-      pose proof (small_chain k x d n Hsx Hdr Hsm) as Hex.
+      { intros j Hj. rewrite Hex by assumption. apply goodc_mk. eapply Forall_forall; [exact Hg|].
+        eapply nth_error_In. exact (proj1 (Hexj j Hj)). }
       set (last := x + (Z.of_nat n - 1) * d).
       assert (Hlast : wr k (x + (Z.of_nat n - 1) * d) = last).
       { replace (Z.of_nat n - 1) with (Z.of_nat (n - 1)) by lia. rewrite Hex by lia. unfold last. f_equal. f_equal. lia. }
@@ -1174,7 +1161,9 @@ Proof.
           apply map_ext_in. intros j Hj. apply in_seq in Hj. now rewrite Hex by lia. }
         split; [|exact Hnth].
         cbn [iter_text item_text item_ok]. split; [reflexivity|]. split; [|split; [exact Hsp|]].
-        { unfold run_ok. repeat split; try assumption; try lia. }
+        { unfold run_ok. split; [exact Hsx|]. split; [exact Hslast|]. split; [unfold last; lia|]. split; [lia|].
+          split; [exact Hd0|]. split; [exact Hdr|].
+          replace (last - x) with (Z.of_nat (n - 1) * d) by (unfold last; lia). apply (Hexj (n - 1)%nat). lia. }
         unfold ctx_ok, unit_step. destruct prev as [p|]; [|split; [assumption|lia]].
         rewrite (types_match_kind p k x (Hprev p eq_refl)). cbn [notconf] in Hnc.
         destruct Hnc as [Hne| ->].
@@ -1194,7 +1183,9 @@ Proof.
         { specialize (Hsm 1%nat ltac:(lia)). rewrite Hex in Hsm by lia. now replace (x + Z.of_nat 1 * d) with (x + d) in Hsm by lia. }
         split; [split; [apply tok_k_tokof; now apply small_good|exact (proj1 (tok_k_chars k x Hsx))]|].
         split; [|split; [exact Hsp|]].
-        { unfold run_ok. repeat split; try assumption; try lia; try (unfold last; lia). }
+        { unfold run_ok. split; [exact Hsxd|]. split; [exact Hslast|]. split; [unfold last; lia|]. split; [lia|].
+          split; [exact Hd0|]. split; [exact Hdr|].
+          replace (last - (x + d)) with (Z.of_nat (n - 2) * d) by (unfold last; lia). apply (Hexj (n - 2)%nat). lia. }
         unfold ctx_ok. rewrite (types_match_kind (mk k x) k (x + d)) by now destruct k.
         replace (av_type (mk k x) =? av_type (mk k (x + d))) with true by (destruct k; reflexivity).
         exists x. split; [reflexivity|]. right. split; lia.
@@ -1211,6 +1202,19 @@ Fixpoint iseq_from (pend : bool) (p : option av) (its : list item) (sfx : list Z
 Lemma iorig_app a b : iorig (a ++ b) = iorig a ++ iorig b.
 Proof. unfold iorig. now rewrite map_app, concat_app. Qed.
 
+Lemma conv_yes_head args size c kk :
+  convert_to_range o args size = CYes c kk -> exists n h r, c = VRep n h :: r.
+Proof.
+  unfold convert_to_range.
+  repeat match goal with
+         | |- context [if ?b then _ else _] => destruct b
+         | |- context [match ?x with _ => _ end] => destruct x
+         end; intros H; inversion H; eauto.
+Qed.
+
+Lemma top_plain inp cols prev b : hd_type inp <> 97 -> print_arg_val_top o inp cols prev b = print_arg_val o inp cols prev.
+Proof. destruct inp as [|v r]; [reflexivity|]. destruct v; cbn [hd_type av_type]; intros H; try reflexivity. congruence. Qed.
+
 Lemma print_loop_iseq : forall fuel args prev i n acc pend wrt cols awtl text w,
   Forall goodc args -> Z.of_nat (length args) < 2 ^ 31 -> n = i + Z.of_nat (length args) ->
   (args = [] -> pend = false) -> (forall p, prev = Some p -> scalar p) ->
@@ -1226,6 +1230,10 @@ Proof.
     exists [], []. rewrite app_nil_r, (Hpe eq_refl). cbn. repeat split; lia.
   - cbn [length] in Hn. replace (n <=? i) with false in Hrun by lia.
     destruct (convert_to_range o (a0 :: rest) (n - i)) as [|c kk|] eqn:Ecv; [| |discriminate].
+    1: rewrite top_plain in Hrun
+         by (pose proof (Forall_inv Hg) as Hg0; destruct a0; cbn in Hg0; try contradiction; cbn; lia).
+    2: destruct (conv_yes_head _ _ _ _ Ecv) as (n0 & h0 & r0 & Ec0); rewrite Ec0 in Hrun;
+       rewrite top_plain in Hrun by (cbn; lia); rewrite <- Ec0 in Hrun.
     all: match type of Hrun with context [print_arg_val ?oo ?inp ?cc ?pp] =>
            destruct (print_arg_val oo inp cc pp) as [[[[t tmp] cols1] bb]|] eqn:Epr; [|discriminate] end.
     all: match type of Ecv with _ = ?cv =>
@@ -1353,3 +1361,80 @@ Proof.
   - cbn [app map]. repeat constructor; cbn; lia.
   - eexists _, _. vm_compute. reflexivity.
 Qed.
+
+(* ------------------------------------------------------------------------- *)
+(* whole messages, compression on or off                                      *)
+Section MsgAny.
+Variables dec2f dec2d : list Z -> Z.
+
+Theorem message_roundtrip_compressed o addr vs text w :
+  compress o = true -> good_addr addr -> Forall goodc vs -> Z.of_nat (length vs) < 2 ^ 31 ->
+  print_message o addr vs 0 = Some (text, w) ->
+  exists slots,
+    w = len text /\
+    count_printed_arg_vals_of_msg dec2f dec2d text = Ok (true, Z.of_nat (length slots)) /\
+    scan_message dec2f dec2d text (Z.of_nat (length slots)) = Ok (addr, slots, []) /\
+    expand slots = Some vs.
+Proof.
+  intros Hon [[ar Ea] Hns] Hg Hlen Hp. unfold print_message in Hp.
+  destruct (print_vals_loop (S (length vs)) o vs None 0 (Z.of_nat (length vs)) addr true 0
+              (0 + (len addr + 1)) (if 0 + (len addr + 1) =? 0 then 0 else 1)) as [[t w']|] eqn:El;
+    [|discriminate].
+  inversion Hp; subst text w; clear Hp.
+  assert (Hsk : forall tail f, skip_comments_ws f (addr ++ tail) = addr ++ tail)
+    by (intros; rewrite Ea; cbn [app]; apply skip_comments_ws_no; lia).
+  assert (Hhd : forall tail, hd0 (addr ++ tail) = 47) by (intros; rewrite Ea; reflexivity).
+  assert (Hnw : forall tail, skip_ws (addr ++ tail) = addr ++ tail)
+    by (intros; apply skip_ws_nonspace; rewrite Hhd; reflexivity).
+  destruct vs as [|v vs'].
+  - cbn in El. inversion El; subst t w'. cbn [length Z.of_nat Z.eqb].
+    assert (Hd := dropwhile_nonspace addr [32] Hns (or_intror eq_refl)). destruct Hd as [Hd Ht].
+    exists []. split; [rewrite len_app; cbn; unfold len; cbn; lia|].
+    unfold count_printed_arg_vals_of_msg, scan_message.
+    rewrite !Hnw, !Hsk, !Hhd. cbn [Z.eqb Pos.eqb negb]. rewrite Hd, Ht.
+    repeat split; reflexivity.
+  - apply (print_loop_iseq dec2f dec2d o Hon) in El; try assumption; try lia; try discriminate.
+    destruct El as (its & sfx & -> & -> & Hseq & Horig & _).
+    assert (Hne : its <> []) by (intros ->; cbn in Horig; discriminate).
+    destruct (iseq_from_iseq dec2f dec2d _ _ _ _ Hseq Hne) as (sepz & T & -> & HL & Hsep).
+    assert (Hz : (Z.of_nat (length (v :: vs')) =? 0) = false) by (apply Z.eqb_neq; cbn [length]; lia). rewrite !Hz.
+    destruct its as [|it its']; [congruence|].
+    destruct (iseq_first dec2f dec2d _ _ _ _ HL) as (c & r & -> & Hc).
+    assert (Hsp : sepz ++ c :: r = [] \/ isspace (hd0 (sepz ++ c :: r)) = true).
+    { right. destruct Hsep as [Hne' Hall]. destruct sepz as [|x s]; [congruence|]. now inversion Hall. }
+    destruct (dropwhile_nonspace addr (sepz ++ c :: r) Hns Hsp) as [Hd Ht].
+    assert (Hws : skip_ws (sepz ++ c :: r) = c :: r).
+    { apply skip_ws_sep; [apply Hsep|]. rewrite hd0_cons. apply Hc. }
+    exists (islots (it :: its')). split; [rewrite !len_app in *; lia|].
+    destruct (iseq_reads dec2f dec2d _ _ HL) as [Hcnt Hscan].
+    unfold count_printed_arg_vals_of_msg, scan_message.
+    rewrite !Hnw, !Hsk, !Hhd. cbn [Z.eqb Pos.eqb negb]. rewrite Hd, Ht, Hws.
+    split; [|split].
+    + unfold count_printed_arg_vals in *. rewrite Hws.
+      destruct Hc as (H0 & H47 & H37 & Hsp' & H46 & H40).
+      rewrite skip_comments_ws_no by assumption.
+      rewrite skip_ws_nonspace in Hcnt by now rewrite hd0_cons.
+      rewrite skip_comments_ws_no in Hcnt by assumption.
+      rewrite (count_loop_iseq dec2f dec2d _ _ _ HL); [reflexivity|reflexivity|].
+      rewrite app_length. cbn [length]. lia.
+    + now rewrite Hscan.
+    + rewrite <- Horig. exact (expand_items dec2f dec2d _ _ _ HL).
+Qed.
+
+Theorem message_roundtrip_any o addr vs text w :
+  good_addr addr -> Forall goodc vs -> Z.of_nat (length vs) < 2 ^ 31 ->
+  print_message o addr vs 0 = Some (text, w) ->
+  exists slots,
+    w = len text /\
+    count_printed_arg_vals_of_msg dec2f dec2d text = Ok (true, Z.of_nat (length slots)) /\
+    scan_message dec2f dec2d text (Z.of_nat (length slots)) = Ok (addr, slots, []) /\
+    expand slots = Some vs.
+Proof.
+  intros Ha Hg Hlen Hp. destruct (compress o) eqn:Ec.
+  - exact (message_roundtrip_compressed o addr vs text w Ec Ha Hg Hlen Hp).
+  - assert (Hgv : Forall good_val vs) by (eapply Forall_impl; [|exact Hg]; apply goodc_good).
+    destruct (message_roundtrip dec2f dec2d o addr vs text w Ec Ha Hgv Hp) as (Hw & Hc & Hs).
+    exists vs. repeat split; try assumption. apply expand_scalars.
+    eapply Forall_impl; [|exact Hg]. intros a Hx. apply (goodc_facts a Hx).
+Qed.
+End MsgAny.
